@@ -81,10 +81,14 @@ def handle (j : Json) : Json :=
     let mExit := exit == expExit
     let doc := parseDoc j
     let mJson := !jhas j "doc" || jsonOK n tr doc
+    -- exit code 0/1/2 of a run that was not stopped by a reported failure: every member of the closure of the selection
+    -- has its final report (`monC02AllProcessed`; an error that cut the run short must show in the exit code)
+    let mAll := monC02AllProcessed inp n tr exit
     Json.mkObj [
       ("monitor", Json.mkObj [("C19_report_order", Json.bool mOrd), ("C19_exec_iff_start", Json.bool mExec),
         ("C19_truth", Json.bool mTruth), ("C19_end_reported", Json.bool mFin), ("C19_exit", Json.bool mExit),
-        ("C19_json", Json.bool mJson)]),
+        ("C19_json", Json.bool mJson),
+        ("C19_success_means_all_processed", Json.bool mAll)]),
       ("hyp", Json.mkObj [
         -- hypothesis of `json_ok` / `C19_json`: every announced task has its final report
         ("all_reported", Json.bool ((List.range n).all fun t => !tr.any (Ev.isExecOf t) || tr.any (Ev.isTerminalOf t))),
